@@ -248,6 +248,7 @@ func (r *Run) Finish() {
 	}
 	nv := len(r.violations)
 	r.mu.Unlock()
+	RunCleanup()
 	r.genericReplay()
 	fmt.Printf("%s %s: %v wall=%.1fs violations=%d known=%d\n", r.ID, r.Tier, summarize(cov), time.Since(r.start).Seconds(), nv, len(r.knownSeen))
 	if nv > 0 {
@@ -267,9 +268,35 @@ func summarize(cov map[string]any) string {
 	return strings.TrimSpace(sb.String())
 }
 
+// CleanupDir registers a scratch directory that must be removed before the process exits. The
+// harnesses leave through os.Exit (Finish, sharded workers, replays), which skips deferred calls and
+// testing's TempDir cleanup: without this every worker process left its directories behind.
+func CleanupDir(path string) {
+	cleanupMu.Lock()
+	cleanupDirs = append(cleanupDirs, path)
+	cleanupMu.Unlock()
+}
+
+var (
+	cleanupMu   sync.Mutex
+	cleanupDirs []string
+)
+
+// RunCleanup removes the registered directories (idempotent).
+func RunCleanup() {
+	cleanupMu.Lock()
+	d := cleanupDirs
+	cleanupDirs = nil
+	cleanupMu.Unlock()
+	for _, p := range d {
+		_ = os.RemoveAll(p)
+	}
+}
+
 // Infra aborts the run with exit 2 (infrastructure error, never a violation).
 func Infra(format string, a ...any) {
 	fmt.Fprintf(os.Stderr, "INFRA-ERROR: "+format+"\n", a...)
+	RunCleanup()
 	os.Exit(2)
 }
 
